@@ -434,3 +434,111 @@ pub fn lay_regr_multi<F: Float>(outer: &Case, float: &str, pred_cols: &[Vec<f64>
     }
     cnt
 }
+
+// ---------------------------------------------------------------------------------------------
+// scale: every value multiplied by a factor. max / mean / median absolute error follow the factor,
+// MSE its square, MAPE / R2 / explained variance do not move. Judged against the definition on the
+// scaled values with a purely relative tolerance (no absolute slack, no allowance for the 1e-10
+// denominator guard of r2 / explained_variance: that guard is what makes them scale dependent).
+// ---------------------------------------------------------------------------------------------
+
+/// power of the factor each metric scales with (None: neither invariant nor equivariant)
+const SCALE_DEGREE: [Option<i32>; 8] = [Some(1), Some(1), Some(2), None, Some(1), Some(0), Some(0), Some(0)];
+
+fn judge_scaled(i: usize, obs: &Result<f64, String>, p: &[f64], t: &[f64], factor: f64, tol: &Tol, outer: &Case, extra: serde_json::Value, cnt: &mut Cnt, viols: &mut Sink) {
+    let Some(deg) = SCALE_DEGREE[i] else { return };
+    let exp = reference(p, t);
+    let Some((e, scale, _guard_slack)) = exp.v[i] else {
+        cnt.bump("scale.metric_inputs_out_of_domain", 1);
+        return;
+    };
+    cnt.bump("scale.values_compared", 1);
+    let abs = tol.abs * factor.abs().powi(deg);
+    let mut a = json!({"metric": NAMES[i], "factor": factor});
+    if let (Some(o), Some(x)) = (a.as_object_mut(), extra.as_object()) {
+        for (k, v) in x {
+            o.insert(k.clone(), v.clone());
+        }
+    }
+    let o = match obs {
+        Ok(o) => *o,
+        Err(msg) => {
+            report!(viols, format!("regression.{}.error_or_panic", NAMES[i]), outer, a, "{} on scaled input: {}", NAMES[i], msg);
+            return;
+        }
+    };
+    if closef(o, e, tol.rel, abs, scale) {
+        return;
+    }
+    // closed forms of the known deviations
+    let n = p.len() as f64;
+    let err: Vec<f64> = p.iter().zip(t).map(|(a, b)| a - b).collect();
+    let sse: f64 = err.iter().map(|x| x * x).sum();
+    let emean = err.iter().sum::<f64>() / n;
+    let tmean = t.iter().sum::<f64>() / n;
+    let sst: f64 = t.iter().map(|x| (x - tmean) * (x - tmean)).sum();
+    let like = |w: f64| closef(o, w, tol.rel, abs, (sse / (sst + 1e-10)).max(1.0));
+    let sig = if i == 6 && like(1.0 - sse / (sst + 1e-10)) {
+        "regression.r2.absolute_denominator_guard_breaks_scale_invariance".to_string()
+    } else if i == 7 && like(1.0 - (sse - emean) / (sst + 1e-10)) {
+        "regression.explained_variance.subtracts_mean_error_instead_of_n_mean_error_squared".to_string()
+    } else if i == 7 && like(1.0 - (sse - n * emean * emean) / (sst + 1e-10)) {
+        "regression.explained_variance.absolute_denominator_guard_breaks_scale_invariance".to_string()
+    } else {
+        format!("regression.{}.scale_dependence", NAMES[i])
+    };
+    report!(
+        viols,
+        sig,
+        outer,
+        a,
+        "{} on the base vectors multiplied by {:e} = {:e}; the definition on the scaled values gives {:e} (SSres = {:e}, SStot = {:e}; with `+ 1e-10` in the denominator: {:e})",
+        NAMES[i],
+        factor,
+        o,
+        e,
+        sse,
+        sst,
+        1.0 - sse / (sst + 1e-10)
+    );
+}
+
+pub fn run_regr_scaled<F: Float>(outer: &Case, float: &str, pred: &[f64], truth: &[f64], factor: f64, viols: &mut Sink) -> Cnt {
+    let mut cnt = Cnt::default();
+    let tol = tol_of(float);
+    let p: Array1<F> = arr(&pred.iter().map(|x| x * factor).collect::<Vec<_>>());
+    let t: Array1<F> = arr(&truth.iter().map(|x| x * factor).collect::<Vec<_>>());
+    let (p64, t64) = (back(&p), back(&t));
+    cnt.evals += 1;
+    cnt.nontrivial += 1;
+    cnt.bump("scale.regression_single_cases", 1);
+    let r = eight::<F, _, _>(&p, &t);
+    for i in 0..8 {
+        judge_scaled(i, &r[i], &p64, &t64, factor, &tol, outer, json!({}), &mut cnt, viols);
+    }
+    cnt
+}
+
+/// one factor per target column (a tiny column next to a huge one)
+pub fn run_regr_multi_scaled<F: Float>(outer: &Case, float: &str, pred_cols: &[Vec<f64>], truth_cols: &[Vec<f64>], factors: &[f64], viols: &mut Sink) -> Cnt {
+    let mut cnt = Cnt::default();
+    let tol = tol_of(float);
+    let m = pred_cols.len();
+    let n = pred_cols[0].len();
+    let fac = |j: usize| factors[j % factors.len()];
+    let p: Array2<F> = Array2::from_shape_fn((n, m), |(i, j)| F::cast(pred_cols[j][i] * fac(j)));
+    let t: Array2<F> = Array2::from_shape_fn((n, m), |(i, j)| F::cast(truth_cols[j][i] * fac(j)));
+    cnt.evals += 1;
+    cnt.nontrivial += 1;
+    cnt.bump("scale.regression_multi_cases", 1);
+    let res = eight_multi::<F, _, _>(&p, &t);
+    for j in 0..m {
+        let pc: Vec<f64> = (0..n).map(|i| p[(i, j)].to_f64().unwrap()).collect();
+        let tc: Vec<f64> = (0..n).map(|i| t[(i, j)].to_f64().unwrap()).collect();
+        for i in 0..8 {
+            let o: Result<f64, String> = res[i].as_ref().map(|v| v.get(j).copied().unwrap_or(f64::NAN)).map_err(|e| e.clone());
+            judge_scaled(i, &o, &pc, &tc, fac(j), &tol, outer, json!({"column": j}), &mut cnt, viols);
+        }
+    }
+    cnt
+}
